@@ -6,6 +6,13 @@ PID = "C15"
 
 
 def classify(m):
+    if m["entry"] == "store_ts_hyp_ok":
+        return ("C15/timestamp-hypothesis-violated-on-real-listing",
+                "on a replica produced by the real code on the real clock some file (snapshots included) is stamped earlier "
+                "than the replication time of the newest transaction it contains, an L0 stamp differs from its replication "
+                "time, replication times go backwards, or (all L0 files present) ts_hyp of ts_exact_for_listing fails — the "
+                "premise under which a timestamp restore returns nothing replicated at or after T; input (pos listing "
+                "record(TXID replication-time)), times as ranks", True)
     return ("C15/timestamp-restore-violates-spec",
             "for some timestamp T the implementation's plan uses a file created at/after T, is not a valid chain, does not "
             "end at the last transaction replicated before T although all L0 files are present, fails although a chain "
@@ -18,7 +25,7 @@ def run(v):
     if not proof_ok:
         v.violation("C15/proof-broken", "; ".join(problems),
                     {"theorem_or_correspondence": "Properties/C15.v", "problems": problems}, found_input=False)
-    S.store_phase(v, PID, "c15", 40, 2500, ("store_ts_ok", "store_ts_plan", "store_run"), ("C15/",), classify)
+    S.store_phase(v, PID, "c15", 40, 2500, ("store_ts_ok", "store_ts_hyp_ok", "store_ts_plan", "store_run"), ("C15/",), classify)
 
 
 def replay(v, path):
